@@ -979,6 +979,9 @@ impl Mon {
         }
         if self.on("C13") {
             crate::monitors3::c13_end(self, w);
+            if w.sc.script.contains("$big") {
+                crate::monitors4::c13_limit(self, w);
+            }
         }
     }
 
